@@ -6,7 +6,7 @@ import ast
 import z3
 
 from .repo import Unsupported
-from .values import (V, Num, Bool, Str, NoneV, NONE, Opt, Tup, Lst, Dct, SetV, SetL, Obj, Opq, Fn, ExcV, ModV, member, distinct_list,
+from .values import (V, Num, Bool, Str, NoneV, NONE, Opt, Tup, Lst, Dct, SetV, SetL, DctL, NDArr, Obj, Opq, Fn, ExcV, ModV, member, distinct_list,
                      truth, is_none, strip_opt, ite, eq, num_pair, fresh_int, fresh_real, fresh_name)
 from . import symex
 
@@ -118,6 +118,8 @@ def apply(ex, f: V, args, kw, p, node):
         if d in ex.handlers:
             ex.trace["handlers"].add(d)
             return ex.handlers[d](ex, p, args, kw, node)
+        if ex.repo.find_method(d, "__init__") is not None:
+            return instantiate(ex, d, args, kw, p, node)
         g = ex.handlers.get("construct:*")
         if g is not None:
             return g(ex, p, [Str(d)] + args, kw, node)
@@ -186,6 +188,35 @@ def apply(ex, f: V, args, kw, p, node):
     raise Unsupported(f"call of Fn<{k}>")
 
 
+def instantiate(ex, qual, args, kw, p, node):
+    """A plain (non-pydantic) class: a fresh object whose attributes are set by the real __init__."""
+    fm, fnode, fcls, fq = ex.repo.find_method(qual, "__init__")
+    ex.trace["inlined"].add(fq + ".__init__")
+    selfv = Obj(qual, {})
+    env = symex.bind_arguments(ex, fm, fnode, [selfv] + args, kw, p)
+    sub = ex.child(fm)
+    sub.run_body(fnode, symex.Path(p.cond, env, None, p.heap))
+    out = []
+    for o in sub.outcomes:
+        if o.kind == "return":
+            out.append((symex.Path(o.cond, p.env, p.yields, p.heap), o.env["self"]))
+        else:
+            ex.outcomes.append(symex.Outcome("raise", o.cond, exc=o.exc, line=o.line, yields=p.yields, env=p.env))
+    ex.side += sub.side
+    return out
+
+
+def last_match(ex, p, n, match, node, tag="lm"):
+    """(found, w): found <=> some j < n has match(j); w the LAST such j (definitional, fresh)"""
+    j = fresh_int("lmj")
+    found = z3.Exists([j], z3.And(j >= 0, j < n, match(j)))
+    w = ex.fresh_sym(z3.IntSort(), tag, node)
+    k = fresh_int("lmk")
+    ex.bg_local(p, [z3.Implies(found, z3.And(w >= 0, w < n, match(w),
+                                            z3.ForAll([k], z3.Implies(z3.And(k >= 0, k < n, k > w), z3.Not(match(k))))))])
+    return found, w
+
+
 # ----------------------------------------------------------------------------- methods on values
 def call_method(ex, base, attr, args, kw, p, node):
     if isinstance(base, Opq):
@@ -208,6 +239,13 @@ def call_method(ex, base, attr, args, kw, p, node):
             if h:
                 return h(ex, p, [base] + args, kw, node)
         raise Unsupported(f"{ex.module.name}:{node.lineno}: str.{attr}")
+    if isinstance(base, DctL):
+        if attr == "get":
+            key = args[0]
+            default = args[1] if len(args) > 1 else kw.get("default", NONE)
+            found, w = last_match(ex, p, base.keys.length(), lambda j: eq(key, base.keys.at(j)), node, "dget")
+            return [(p, ite(found, base.vals.at(w), default))]
+        raise Unsupported(f"dict.{attr} on a symbolic dict")
     if isinstance(base, Dct):
         if attr == "get":
             key = args[0]
@@ -285,6 +323,19 @@ def set_item(ex, target: ast.Subscript, v, p, node):
                 else:
                     pairs.append((idx, v))
                 out.append(p1.bind(name, Dct(pairs)))
+            elif isinstance(cur, NDArr):
+                p2, i = ex.as_num(idx, p1, node)
+                it = i.t
+                p2 = ex.implicit(p2, z3.Not(z3.And(it >= -cur.n, it < cur.n)), "IndexError", node)
+                it = z3.If(it < 0, cur.n + it, it) if ex.feasible(p2.cond + [it < 0]) else it
+                val = v
+                if cur.dtype == "float32" and isinstance(v, Num):
+                    val = Num(ex.handlers["numpy.float32#cast"](ex, v)) if "numpy.float32#cast" in ex.handlers else v
+                if cur.log is not None:
+                    new = NDArr(cur.n, cur._at, cur.dtype, cur.log + [(it, val)])
+                else:
+                    new = NDArr(cur.n, lambda k, cur=cur, it=it, val=val: ite(k == it, val, cur.at(k)), cur.dtype)
+                out.append(p2.bind(name, new))
             elif isinstance(cur, Opq) and ("setitem:" + cur.kind) in ex.handlers:
                 for p2, new in ex.handlers["setitem:" + cur.kind](ex, p1, [cur, idx, v], {}, node):
                     out.append(p2.bind(name, new))
@@ -376,6 +427,8 @@ def b_len(ex, p, args, kw, node):
         return [(p, Num(v.length()))]
     if isinstance(v, (Dct,)):
         return [(p, Num(len(v.pairs)))]
+    if isinstance(v, NDArr):
+        return [(p, Num(v.n))]
     if isinstance(v, SetV):
         v = SetL(Lst(items=v.items)) if len(v.items) > 1 else v
     if isinstance(v, SetV):
@@ -654,6 +707,73 @@ def b_type(ex, p, args, kw, node):
     raise Unsupported("type() of non-object")
 
 
+_HASH = {}
+
+
+def _hash_fn(sort):
+    key = str(sort)
+    if key not in _HASH:
+        _HASH[key] = z3.Function("pyhash_" + key, sort, z3.IntSort())
+    return _HASH[key]
+
+
+def b_hash(ex, p, args, kw, node):
+    """hash(): an uninterpreted function of the value (congruent: equal values hash equally -- assumed for str, UUID,
+    numbers, tuples); objects of repository classes use their real __hash__"""
+    v = args[0]
+    ex.trace["assumed"].add("builtin hash is a function of the value (x == y => hash(x) == hash(y)) on str/UUID/float/tuple")
+    if isinstance(v, Opt):
+        p = ex.implicit(p, v.isnone, "TypeError", node) if False else p
+        inner = b_hash(ex, p, [v.val], kw, node)[0][1]
+        return [(p, Num(z3.If(v.isnone, z3.IntVal(0), inner.t)))]
+    if isinstance(v, Num):
+        return [(p, Num(_hash_fn(z3.RealSort())(v.real())))]   # hash(1) == hash(1.0): hashed as a real number
+    if isinstance(v, (Str, Opq, Bool)):
+        return [(p, Num(_hash_fn(v.t.sort())(v.t)))]
+    if isinstance(v, NoneV):
+        return [(p, Num(0))]
+    if isinstance(v, Tup):
+        hs = []
+        for x in v.items:
+            r = b_hash(ex, p, [x], kw, node)
+            if len(r) != 1:
+                raise Unsupported("forking hash")
+            hs.append(r[0][1].t)
+        f = z3.Function(f"pyhash_tuple{len(hs)}", *[z3.IntSort()] * len(hs), z3.IntSort())
+        return [(p, Num(f(*hs)))]
+    if isinstance(v, Obj):
+        found = ex.repo.find_method(v.cls, "__hash__") if ex.repo.resolve(v.cls)[0] == "class" else None
+        if found is None:
+            ex.emit_raise(p, "TypeError", node)  # pydantic models without __hash__ are unhashable
+            return []
+        fm, fnode, fcls, fq = found
+        return ex.call_repo_function(fm, fnode, [v], {}, p, qual=fq + ".__hash__")
+    raise Unsupported(f"hash of {type(v).__name__}")
+
+
+def b_id(ex, p, args, kw, node):
+    """id(x): the object's identity -- NOT a function of its value (two equal objects have unrelated ids)"""
+    ids = ex.trace.setdefault("_ids", {})
+    key = id(args[0])
+    if key not in ids:
+        ids[key] = (z3.Int(fresh_name("objid")), args[0])
+    return [(p, Num(ids[key][0]))]
+
+
+def np_zeros(ex, p, args, kw, node):
+    shape = args[0] if args else kw["shape"]
+    dt = kw.get("dtype")
+    dtype = dt.qual.rsplit(".", 1)[1] if isinstance(dt, ModV) else "float64"
+    ex.trace["assumed"].add("numpy.zeros(n): an array of n zeros; item assignment writes exactly the indexed cell")
+    if isinstance(shape, Num):
+        zero = Num(0) if dtype.startswith("int") else Num(0.0)
+        return [(p, NDArr(shape.t, lambda i, zero=zero: zero, dtype))]
+    h = ex.handlers.get("numpy.zeros#nd")
+    if h:
+        return h(ex, p, args, kw, node)
+    raise Unsupported("numpy.zeros with a non-scalar shape")
+
+
 def b_set(ex, p, args, kw, node):
     if not args:
         return [(p, SetV([]))]
@@ -702,6 +822,6 @@ BUILTINS = {
     "len": b_len, "min": _minmax("min"), "max": _minmax("max"), "abs": b_abs, "int": b_int, "float": b_float,
     "bool": b_bool, "isinstance": b_isinstance, "any": _quant("any"), "all": _quant("all"), "list": b_list,
     "tuple": b_tuple, "dict": b_dict, "range": b_range, "enumerate": b_enumerate, "zip": b_zip, "sum": b_sum,
-    "next": b_next, "hasattr": b_hasattr, "getattr": b_getattr, "type": b_type, "set": b_set, "iter": b_list,
+    "next": b_next, "hasattr": b_hasattr, "getattr": b_getattr, "type": b_type, "hash": b_hash, "id": b_id, "set": b_set, "iter": b_list,
     "implies": b_implies, "forall": _cquant("forall"), "exists": _cquant("exists"), "distinct": b_distinct,
 }
